@@ -218,8 +218,26 @@ func levelB(w *sim.World) {
 		if c.at+c.dur > faultsEnd {
 			faultsEnd = c.at + c.dur
 		}
+		// half of the windows cut the server off from its peers only: clients still reach it (a
+		// deposed leader that does not know it yet keeps talking to its clients)
+		peersOnly := w.Choose(sim.KFault, 2) == 1
 		w.Go("cut", func() {
 			w.Sleep(c.at)
+			if peersOnly {
+				w.Probe("level_b_cut_from_peers_only")
+				for j := 1; j <= n; j++ {
+					if j != c.srv {
+						net.CutLink(fmt.Sprintf("s%d", c.srv), fmt.Sprintf("s%d", j))
+					}
+				}
+				w.Sleep(c.dur)
+				for j := 1; j <= n; j++ {
+					if j != c.srv {
+						net.HealLink(fmt.Sprintf("s%d", c.srv), fmt.Sprintf("s%d", j))
+					}
+				}
+				return
+			}
 			net.Isolate(fmt.Sprintf("s%d", c.srv))
 			w.Sleep(c.dur)
 			net.Heal(fmt.Sprintf("s%d", c.srv))
